@@ -328,7 +328,7 @@ func runC14(r *Result, d *drv.Driver, tier string, seed int64, replay string) {
 			r.find(Finding{Kind: "violation", What: "Close on a Client that is not connected failed", Input: "Client{}.Close"})
 		}
 	}
-	clientStates(r, ca)
+	clientStates(r, d, ca)
 	// end to end against the package's own Server
 	endToEnd(r, ca)
 }
@@ -470,7 +470,32 @@ func replyReasonMessage(b []byte) (reason uint32, msg []byte, ok bool) {
 // clientStates: the Client in every connection state a caller can bring it into - never connected, Connect failed at the
 // dial, Connect failed at the TLS handshake (peer answers garbage / closes / presents an untrusted certificate), closed after
 // use, closed twice, connected twice.  C14: Send / DiscoverVersions return an error when not connected and never panic.
-func clientStates(r *Result, ca *tlsm.CA) {
+func clientStates(r *Result, d *drv.Driver, ca *tlsm.CA) {
+	// each history is also replayed on the model's connection-state machine (Client.cstep); hist / got are per Client
+	var hist, got []string
+	flush := func(label string) {
+		if len(hist) == 0 {
+			return
+		}
+		line := "clientstate " + strings.Join(hist, ",")
+		rep, err := d.Ask(line)
+		want := "ok " + strings.Join(got, ",")
+		if err != nil || rep != want {
+			r.find(Finding{Kind: "disagreement", What: "client connection-state model differs from the real Client (" + label + ")", Input: line, Expect: rep, Actual: want})
+		}
+		hist, got = nil, nil
+	}
+	note := func(op string, err error, panicked bool) {
+		hist = append(hist, op)
+		switch {
+		case panicked:
+			got = append(got, "panic")
+		case err != nil:
+			got = append(got, "err")
+		default:
+			got = append(got, "ok")
+		}
+	}
 	try := func(state string, f func() (interface{}, error), wantErr bool) {
 		crumb("C14 client state: " + state)
 		r.eval("client-state:"+state, true)
@@ -485,6 +510,12 @@ func clientStates(r *Result, ca *tlsm.CA) {
 			}()
 			res, err = f()
 		}()
+		switch {
+		case strings.HasSuffix(state, "Send") || strings.HasSuffix(state, "DiscoverVersions"):
+			note("s", err, panicked != "")
+		case strings.HasSuffix(state, "Close") || strings.HasSuffix(state, "Close again"):
+			note("x", err, panicked != "")
+		}
 		switch {
 		case panicked != "":
 			r.find(Finding{Kind: "violation", What: "the Client panicked in state: " + state, Input: state, Expect: "an error", Actual: "panic: " + panicked})
@@ -543,15 +574,18 @@ func clientStates(r *Result, ca *tlsm.CA) {
 		{"Connect failed at the handshake (untrusted certificate)", untrusted.Addr().String()},
 	} {
 		c := newClient(ep.addr)
-		if err := c.Connect(); err == nil {
+		err := c.Connect()
+		if err == nil {
 			r.find(Finding{Kind: "disagreement", What: "Connect unexpectedly succeeded in the client-state scenario", Input: ep.name})
 			c.Close()
 			continue
 		}
+		note("c0", err, false)
 		try(ep.name+", then Send", send(c), true)
 		try(ep.name+", then DiscoverVersions", dv(c), true)
 		try(ep.name+", then Close", func() (interface{}, error) { return nil, c.Close() }, false)
 		try(ep.name+", then Close, then Send", send(c), true)
+		flush(ep.name)
 	}
 	// after a successful exchange: Close, Close again, Send
 	srv, err := newRawServer(tlsm.Leaf(ca, tlsm.LeafOpts{Host: "127.0.0.1"}))
@@ -559,10 +593,12 @@ func clientStates(r *Result, ca *tlsm.CA) {
 		defer srv.ln.Close()
 		c := newClient(srv.ln.Addr().String())
 		if err := c.Connect(); err == nil {
+			note("c1", nil, false)
 			try("connected, Close", func() (interface{}, error) { return nil, c.Close() }, false)
 			try("closed, Close again", func() (interface{}, error) { return nil, c.Close() }, false)
 			try("closed, then Send", send(c), true)
 			try("closed, then DiscoverVersions", dv(c), true)
+			flush("connect, close, close, send")
 		}
 	}
 }
